@@ -197,7 +197,7 @@ func replayOnRealCode(o *Options, ob *Obligation, model string) map[string]inter
 			break
 		}
 	}
-	if q == nil || q.Params == nil {
+	if q == nil {
 		return nil
 	}
 	vals := modelValues(model)
